@@ -49,7 +49,8 @@ TYPES = {
     "none": (None, ["3", "'k'", "2.5"], [["8"], ["txt"]], []),
 }
 # un-annotated parameters of a callable given to config_for: the field type is inferred from the default
-CF_UNTYPED_DEFAULTS = ["3", "'k'", "2.5", "True", "False", "True", "False", "(True, 2)", "(1, 2.5)", "('a', False)", "(False, True)", "(7,)"]
+CF_UNTYPED_DEFAULTS = ["3", "'k'", "2.5", "True", "False", "True", "False", "(True, 2)", "(1, 2.5)", "('a', False)", "(False, True)", "(7,)",
+                       "[1, 2]", "['a', 'b']", "[2.5]", "[]", "[True]"]
 MUTABLE_DEFAULTS = {"list": ["[1, 2]", "[]"], "dc": ["Cfg()", "Cfg(n=5)"]}
 ANN_COQ = {"int": "AInt", "float": "AFloat", "str": "AStr", "bool": "ABool", "list": "AList", "opt": "AOpt",
            "enum": "AEnum", "dc": "ADc", "fdc": "ADc", "none": "ANone"}
@@ -121,6 +122,7 @@ def _gen_sig(rng, mode, bool_rate):
                 default, mut = rng.choice(MUTABLE_DEFAULTS[ty]), True
             elif ty == "none" and mode == "cf":
                 default = rng.choice(CF_UNTYPED_DEFAULTS)
+                mut = default.startswith("[")
             else:
                 default = rng.choice(TYPES[ty][1])
         params.append(dict(name=name, kind=kind, ty=ty, default=default, mut=mut))
@@ -134,7 +136,10 @@ def _opt_group(rng, p, bad=False):
     if ety is not None and ety != "DBool":
         elem = {"DInt": (["7", "21"], "x1"), "DFloat": (["2.5", "4"], "abc"), "DStr": (["zz", "w_1"], None),
                 "DBool": (["true", "false", "1", "no"], "maybe")}
-        kinds = ety if isinstance(ety, list) else [ety]
+        if isinstance(ety, dict):       # a list: any number of items of the first item's kind (strings for a bare list)
+            kinds = [ety["L"][0] if ety["L"] and isinstance(ety["L"][0], str) else "DStr"] * rng.choice([1, 2, 3])
+        else:
+            kinds = ety if isinstance(ety, list) else [ety]
         toks = [rng.choice(elem[k][0]) for k in kinds]
         if bad and elem[kinds[0]][1]:
             toks[0] = elem[kinds[0]][1]
@@ -266,7 +271,7 @@ def _assign_class_annotations(rng, params):
             if rng.random() < 0.6:
                 p["cann"], p["cann_kind"] = rng.choice(["int", "str", "float"]), "only"
                 if p["default"] is not None:
-                    p["default"] = {"int": "3", "str": "'k'", "float": "2.5"}[p["cann"]]
+                    p["default"], p["mut"] = {"int": "3", "str": "'k'", "float": "2.5"}[p["cann"]], False
             continue
         r = rng.random()
         if r < 0.3:
@@ -402,6 +407,10 @@ def _eff_default_src(p, over):
     return p["default"]
 
 
+def _list_default(p):
+    return p["ty"] == "list" or (p["ty"] == "none" and (p["default"] or "").startswith("["))
+
+
 def _dkind(src):
     """Kind of a default written as a literal: DBool/DInt/DFloat/DStr, a list of kinds for a tuple, DOther."""
     import ast
@@ -421,11 +430,15 @@ def _dkind(src):
             return "DStr"
         if isinstance(v, tuple):
             return [k(x) for x in v]
+        if isinstance(v, list):
+            return {"L": [k(x) for x in v]}
         return "DOther"
     return k(v)
 
 
 def _kind_ann(k):
+    if isinstance(k, dict):
+        return "List[" + _kind_ann(k["L"][0]) + "]" if k["L"] else "list"
     if isinstance(k, list):
         return "Tuple[" + ", ".join(_kind_ann(x) for x in k) + "]"
     return {"DBool": "bool", "DInt": "int", "DFloat": "float", "DStr": "str"}[k]
@@ -485,6 +498,10 @@ def gen(tier, seed):
                       session=[dict(ignore=["absent"], frozen=None, over=[])] * 2, call_pos=[], call_kw=[]))
     cases.append(dict(mode="main", params=[P("x", "pk", "opt"), P("y", "pk", "int", "1")], doc=False, argv=[],
                       extra_pos=[], extra_kw=[]))
+    for argv in ([], ["--xs", "3", "4", "--zs", "q"], ["--ys", "1", "b"]):
+        cases.append(dict(mode="cf", params=[P("xs", "pk", "none", "[1, 2]", True), P("ys", "pk", "none", "[]", True),
+                                             P("zs", "pk", "none", "['a']", True)], doc=False, argv=argv,
+                          session=[dict(ignore=["absent"], frozen=None, over=[])] * 2, call_pos=[], call_kw=[]))
     for argv in (["--verbose"], ["--verbose", "false", "--flags", "false", "7"], ["--steps", "3"]):
         cases.append(dict(mode="cf", params=[P("steps", "pk", "int", "10"), P("verbose", "pk", "none", "False"),
                                              P("flags", "pk", "none", "(True, 2)")], doc=False, argv=argv,
@@ -809,6 +826,10 @@ def run_impl(cases):
                 return {bool: "TBool", int: "TInt", float: "TFloat", str: "TStr"}[t]
             if typing.get_origin(t) is tuple:
                 return [ity(a) for a in typing.get_args(t)]
+            if typing.get_origin(t) is list and len(typing.get_args(t)) == 1:
+                return {"L": ity(typing.get_args(t)[0])}
+            if t is list:
+                return "LBare"
             return "IFail"
         ftypes = {fl.name: fl.type for fl in dataclasses.fields(cls0)}
         overridden = [k for k, _ in req0["over"]]
@@ -1091,6 +1112,8 @@ def _cf_spec(params, sess, obs, check_call=True, session=True):
 
 
 def _spec_ity(k):
+    if isinstance(k, dict):
+        return {"L": _spec_ity(k["L"][0])} if k["L"] else "LBare"
     if isinstance(k, list):
         return [_spec_ity(x) for x in k]
     return {"DBool": "TBool", "DInt": "TInt", "DFloat": "TFloat", "DStr": "TStr", "DOther": "IFail"}[k]
@@ -1133,7 +1156,7 @@ def signature(case, obs, reason):
                 p = byname[m.group(2)]
                 if p["ty"] == "dc" and m.group(1) == "Cfg":
                     return f"{tag}-setup:ValueError:dataclass-instance-default"
-                if p["ty"] == "list" and m.group(1) == "list":
+                if _list_default(p) and m.group(1) == "list":
                     return f"{tag}-setup:ValueError:list-dict-set-default"      # regression of fix 4e8d91f / 91c405f
             return f"{tag}-setup:ValueError:other-cause"
         if res[1] == "TypeError" and any(p["ty"] == "bool" for p in params) and case["mode"] == "main":
@@ -1211,10 +1234,16 @@ def _req(req, over):
 
 
 def _cdkind(k):
+    if isinstance(k, dict):
+        return "(DList " + clist([_cdkind(x) for x in k["L"]]) + ")"
     return "(DTuple " + clist([_cdkind(x) for x in k]) + ")" if isinstance(k, list) else k
 
 
 def _city(t):
+    if isinstance(t, dict):
+        return f"(IList {_city(t['L'])})"
+    if t == "LBare":
+        return "IListBare"
     if isinstance(t, list):
         return "(ITuple " + clist([_city(x) for x in t]) + ")"
     return "IFail" if t == "IFail" else f"(IB {t})"
@@ -1226,7 +1255,7 @@ def _params_coq(params, defaults):
         d = defaults.get(p["name"])
         ann = CANN_TAG[p["cann"]] if (p["ty"] == "none" and p.get("cann")) else ANN_COQ[p["ty"]]
         ps.append(f"mkparam {cstr(p['name'])} {KIND_COQ[p['kind']]} {ann} {copt(cstr(d)) if d is not None else 'None'} "
-                  f"{'Immut' if not p['mut'] else '(MutC KList)' if p['ty'] == 'list' else 'MutOther'}")
+                  f"{'Immut' if not p['mut'] else '(MutC KList)' if _list_default(p) else 'MutOther'}")
     return ps
 
 
